@@ -76,6 +76,8 @@ theorem Inv.restoreRow {p : Program} {s0 t : St} (inv : Inv p t) {k : Key}
 theorem restoreRow_nodes (k : Key) (s0 t : St) : (restoreRow k s0 t).nodes = t.nodes := rfl
 theorem restoreRow_epoch (k : Key) (s0 t : St) : (restoreRow k s0 t).epoch = t.epoch := rfl
 theorem restoreRow_inputs (k : Key) (s0 t : St) : inputsOf (restoreRow k s0 t) = inputsOf t := rfl
+theorem restoreRow_ext (p : Program) (k : Key) (s0 t : St) : extOf p (restoreRow k s0 t) = extOf p t := rfl
+theorem restoreRow_world (k : Key) (s0 t : St) : (restoreRow k s0 t).world = t.world := rfl
 
 
 -- ------------------------------------------------------------------ the images
@@ -90,12 +92,22 @@ def imagesRep (q : Q) (I : Key → St → List St) (k : Key) : List (Key × Val)
       | .error _ => []
       | .ok (v, s1) => if v ≠ o then [] else imagesRep q I k rest (clearDirty s1 k d))
 
+/-- images published while the members of an unordered group are queried (one after the other) -/
+def imagesMany (q : Q) (I : Key → St → List St) : List Key → St → List St
+  | [], _ => []
+  | d :: rest, s => I d s ++ (match q d s with
+      | .error _ => []
+      | .ok (_, s1) => imagesMany q I rest s1)
+
 /-- images published while an executor runs -/
 def imagesRun (q : Q) (I : Key → St → List St) : Prog → St → List St
   | .ret _, _ => []
   | .ask d cont, s => I d s ++ (match q d s with
       | .error _ => []
       | .ok (v, s1) => imagesRun q I (cont v) s1)
+  | .askAll ks cont, s => imagesMany q I ks s ++ (match askMany q ks s with
+      | .error _ => []
+      | .ok (kvs, s1) => imagesRun q I (cont (kvs.map (·.2))) s1)
 
 /-- the store images between the logical write batches of `query p fuel k s` (the last one is the
     state after `k`'s own batch) -/
@@ -109,10 +121,14 @@ def imagesQ (p : Program) : Nat → Key → St → List St
     | none =>
       match p[k]? with
       | none => []
-      | some d => if d.isInput then [] else imagesRun (query p fuel) (imagesQ p fuel) d.prog s ++ fin
+      | some d =>
+        match d.kind with
+        | .input => []
+        | .external => fin
+        | .normal => imagesRun (query p fuel) (imagesQ p fuel) d.prog s ++ fin
     | some n =>
       if n.lastVerified = s.epoch then []
-      else if n.isInput then fin
+      else if n.kind ≠ .normal then fin
       else
         match p[k]? with
         | none => []
@@ -128,6 +144,8 @@ structure ImgOK (p : Program) (b : Nat) (s t : St) : Prop where
   touches : Touches b s t
   epoch : t.epoch = s.epoch
   inputs : inputsOf t = inputsOf s
+  ext : extOf p t = extOf p s
+  world : t.world = s.world
 
 theorem imagesRep_mem {p : Program} {q : Q} {I : Key → St → List St} {k : Key} (hq : QSpec p q k)
     {n : Node} {s : St} :
@@ -183,6 +201,32 @@ theorem imagesRep_mem {p : Program} {q : Q} {I : Key → St → List St} {k : Ke
               rw [if_neg (by komega)]; rw [b y]; exact b0 y
             exact ih (clearDirty s1 k d) i2 f2 t2 k1 hsub' t ht
 
+theorem imagesMany_mem {p : Program} {q : Q} {I : Key → St → List St} {k : Key} (hq : QSpec p q k)
+    {s0 : St} :
+    ∀ (ks : List Key) (sc : St), (∀ d, d ∈ ks → d < k) → Inv p sc → Frame p s0 sc → Touches k s0 sc →
+      ∀ t, t ∈ imagesMany q I ks sc →
+        ∃ sc' d, d < k ∧ Inv p sc' ∧ Frame p s0 sc' ∧ Touches k s0 sc' ∧ t ∈ I d sc' := by
+  intro ks
+  induction ks with
+  | nil => intro sc _ _ _ _ t ht; simp [imagesMany] at ht
+  | cons d rest ih =>
+    intro sc hb inv fr tc t ht
+    have hd : d < k := hb d (List.mem_cons_self ..)
+    simp only [imagesMany, List.mem_append] at ht
+    cases ht with
+    | inl ht => exact ⟨sc, d, hd, inv, fr, tc, ht⟩
+    | inr ht =>
+      have hqd := hq d hd sc inv
+      cases hr : q d sc with
+      | error e => rw [hr] at ht; simp at ht
+      | ok r =>
+        obtain ⟨v, s1⟩ := r
+        rw [hr] at ht hqd
+        obtain ⟨i1, f1, t1, _⟩ := hqd
+        simp only at i1 f1 t1 ht
+        exact ih s1 (fun d' hm => hb d' (List.mem_cons_of_mem _ hm)) i1 (fr.trans f1)
+          (tc.trans (t1.mono (by komega))) t ht
+
 theorem imagesRun_mem {p : Program} {q : Q} {I : Key → St → List St} {k : Key} (hq : QSpec p q k)
     {s0 : St} :
     ∀ (prog : Prog) (sc : St), prog.Below k → Inv p sc → Frame p s0 sc → Touches k s0 sc →
@@ -207,6 +251,22 @@ theorem imagesRun_mem {p : Program} {q : Q} {I : Key → St → List St} {k : Ke
         obtain ⟨i1, f1, t1, _⟩ := hqd
         simp only at i1 f1 t1 ht
         exact ih v s1 (hc v) i1 (fr.trans f1) (tc.trans (t1.mono (by komega))) t ht
+  | askAll ks cont ih =>
+    intro sc hb inv fr tc t ht
+    obtain ⟨hd, hc⟩ := hb
+    simp only [imagesRun, List.mem_append] at ht
+    cases ht with
+    | inl ht => exact imagesMany_mem hq ks sc hd inv fr tc t ht
+    | inr ht =>
+      have hall := askMany_spec hq ks sc hd inv
+      cases hr : askMany q ks sc with
+      | error e => rw [hr] at ht; simp at ht
+      | ok r =>
+        obtain ⟨kvs, s1⟩ := r
+        rw [hr] at ht hall
+        obtain ⟨i1, f1, t1, _⟩ := hall
+        simp only at i1 f1 t1 ht
+        exact ih _ s1 (hc _) i1 (fr.trans f1) (tc.trans t1) t ht
 
 /-- an image of a sub-query, seen from a key `k` above it whose processing is in progress: with `k`'s
     dirty row put back it satisfies the invariant -/
@@ -216,7 +276,8 @@ theorem ImgOK.restore {p : Program} {s sc t : St} {k d : Key} {n : Node} (invs :
     (h : ImgOK p (d + 1) sc t) : ImgOK p (k + 1) s (restoreRow k s t) := by
   have htk : t.nodes k = some n := by rw [(h.touches k (by komega)).1]; exact hkc
   have hep : t.epoch = s.epoch := by rw [h.epoch, fr.epoch]
-  refine ⟨?_, ?_, hep, by rw [restoreRow_inputs, h.inputs, fr.inputs]⟩
+  refine ⟨?_, ?_, hep, by rw [restoreRow_inputs, h.inputs, fr.inputs],
+    by rw [restoreRow_ext, h.ext, fr.ext], by rw [restoreRow_world, h.world, fr.world]⟩
   · apply h.inv.restoreRow
     · rintro ⟨n', hn', hv'⟩
       rw [htk] at hn'; cases hn'
@@ -252,7 +313,7 @@ theorem mem_fin {p : Program} (wf : WF p) {fuel k : Nat} (hk : k < fuel) {s : St
     simp only [List.mem_singleton] at ht
     subst ht
     obtain ⟨i, f, tc, _⟩ := hs
-    exact ⟨i, tc, f.epoch, f.inputs⟩
+    exact ⟨i, tc, f.epoch, f.inputs, f.ext, f.world⟩
 
 /-- every store image between two logical write batches of a query satisfies the engine invariant,
     and has the timestamp and the committed inputs of the state the query started from -/
@@ -276,11 +337,12 @@ theorem images_ok {p : Program} (wf : WF p) :
       | some d =>
         rw [hp] at ht
         simp only at ht
-        cases hi : d.isInput with
-        | true => rw [hi] at ht; simp at ht
-        | false =>
+        cases hi : d.kind with
+        | input => rw [hi] at ht; simp at ht
+        | external => rw [hi] at ht; exact mem_fin wf hk inv ht
+        | normal =>
           rw [hi] at ht
-          simp only [Bool.false_eq_true, if_false, List.mem_append] at ht
+          simp only [List.mem_append] at ht
           cases ht with
           | inr ht => exact mem_fin wf hk inv ht
           | inl ht =>
@@ -288,7 +350,8 @@ theorem images_ok {p : Program} (wf : WF p) :
               imagesRun_mem hq d.prog s (wf k d hp hi) inv (Frame.refl p s) (Touches.refl _ s) t ht
             have h := hI d' hd' sc isc t hmem
             exact ⟨h.inv, (tsc.mono (by komega)).trans (h.touches.mono (by komega)),
-              by rw [h.epoch, fsc.epoch], by rw [h.inputs, fsc.inputs]⟩
+              by rw [h.epoch, fsc.epoch], by rw [h.inputs, fsc.inputs], by rw [h.ext, fsc.ext],
+              by rw [h.world, fsc.world]⟩
     | some n =>
       rw [hn] at ht
       simp only at ht
@@ -331,7 +394,10 @@ theorem images_ok {p : Program} (wf : WF p) :
                   obtain ⟨i1, f1, t1, k1, _, htrue⟩ := hrep
                   simp only at i1 f1 t1 k1 htrue
                   obtain ⟨dd, oo, hm, hne⟩ := htrue trivial
-                  have hin : n.isInput = false := by simpa using hin
+                  have hin : n.kind = .normal := by
+                    false_or_by_contra
+                    rename_i h
+                    exact hin h
                   obtain ⟨d0, hp0, hki, _⟩ := inv.kind k n hn
                   rw [hp] at hp0; cases hp0
                   have hj : Just p s k := ⟨fun ⟨n', hn', hv'⟩ => by rw [hn] at hn'; cases hn'; exact hv hv',
